@@ -39,7 +39,14 @@ def corpus(ctx):
         ("repo:examples/Ex02_Chain.jdf", "Ex02_Chain", 1, [("Task", 0, 1, 0, 1, 0)], [r5 if t else r4], lambda g: g[0] + 1, lambda g: 1, [(2,)]),
     ]
 
-REFBOX = {"chain": 9, "grid": 14, "tree": 10, "derived": 11, "pingpong": 9, "startup": 6, "Ex02_Chain": 9}   # REF_PHI-REF_PLO+1
+# parsec.c reduced to its dependency-tracking functions (real text, regenerated from the current file on every run)
+TRIM_PARSEC_C = [
+    (PC, r"^/\*\n \* Global variables\.\n \*/", "#if 0 /* vp: rest of parsec.c not needed by the goal queries */"),
+    (PC, r"^#define rop1 ", "#endif /* vp */\n#define rop1 "),
+    (PC, r"^/\*\n \* Mark the task as having all it's dependencies satisfied\.", "#if 0 /* vp */\n/*\n * Mark the task as having all it's dependencies satisfied."),
+    (PC, r"\Z", "\n#endif /* vp */\n"),
+]
+REFBOX = {"chain": 9, "grid": 13, "tree": 10, "derived": 11, "pingpong": 9, "startup": 6, "Ex02_Chain": 9}   # REF_PHI-REF_PLO+1
 KF_NEG = "C01-descending-range"
 NEG_STEP = {("grid", "G")}       # startup-capable classes with a negative-step parameter range
 
@@ -68,15 +75,15 @@ def queries(ctx):
             cd = ["JDF=" + name, "CLS=" + cls, "CID=%d" % cid, "VP_DC_NCOORD=%d" % nco]
             # ---- O1 count: all local (1 rank) and a 2-rank placement seen from each rank
             for (nr, me) in ((1, 0), (2, 0), (2, 1)):
-                for ci, ch in enumerate(chunks(vals, 16)):
+                for ci, ch in enumerate(chunks(vals, 6)):
                     qs.append(Q("count_%s_%s_r%d.%d_%d" % (name, cls, nr, me, ci), ["o1_count.c"],
                                 defs=cd + vdefs(ch) + ["VP_NRANKS=%d" % nr, "MYRANK=%d" % me] +
                                 (["EXPECT_REMOTE"] if nr > 1 and ci == 0 and (name, cls) not in (("startup", "STARTUP"), ("tree", "S")) else []),
-                                unwind=20,
+                                unwind=REFBOX[name] + 2, tiers=("quick", "thorough") if (nr, me) != (2, 0) else ("thorough",),
                                 info={"obligation": "O1 count", "symbolic": ["one task instance (box containment)"],
                                       "enumerated": {"globals": [list(v) for v in ch], "ranks": nr, "myrank": me},
                                       "stubs": STUBS, "jdf": jdf, "class": cls,
-                                      "functions": ["%s_%s_internal_init" % (name, cls)], "bounds": {"unwind": 20}}, **base))
+                                      "functions": ["%s_%s_internal_init" % (name, cls)], "bounds": {"unwind": REFBOX[name] + 2}}, **base))
             # ---- O2 startup: one valuation per query (tight unwinding bound = trip count of the generated loops)
             if has_startup:
                 for v in vals:
@@ -110,7 +117,7 @@ def queries(ctx):
             # ---- O3 out-edges: iterate_successors vs reference OUT side
             neg3 = name == "grid"     # G's descending range i: activations towards G are dropped (known finding)
             for ci, ch in enumerate(chunks(vals, 6)):
-                qs.append(Q("succ_%s_%s_%d" % (name, cls, ci), ["o3_succ.c"], defs=cd + vdefs(ch) + (["NO_EDGES"] if noedges else []),
+                qs.append(Q("succ_%s_%s_%d" % (name, cls, ci), ["o3_succ.c"], defs=cd + vdefs(ch) + (["NO_EDGES"] if noedges else []) + (["KF_NEG_DC=0"] if (neg3 and cls == "G") else []),
                             unwind=max(20, max(trip(v) for v in ch) + 3), kf=(KF_NEG if (neg3 and cls == "G") else None),
                             info={"obligation": "O3 out-edges", "symbolic": ["source instance t", "candidate edge (src flow, dst class, dst params, dst flow)"],
                                   "enumerated": {"globals": [list(v) for v in ch]}, "stubs": STUBS + ["ontask (recording callback)"],
@@ -119,21 +126,77 @@ def queries(ctx):
             # ---- O3 goal: real parsec_update_deps_with_mask/_counter + check_IN on the generated tables
             for ci, ch in enumerate(chunks(vals, 6)):
                 d = cd + vdefs(ch) + ["MAXDEG=%d" % max(1, maxdeg)]
+                if ci > 0 and not ctx.thorough:
+                    d.append("NO_REFCHECK")      # reference IN/OUT cross-check: first chunk only in the quick tier (cost)
                 if maxdeg == 0:
                     d.append("NO_PRED")
                 elif multi:
                     d.append("MULTI")
-                b2 = dict(base, object_bits=12)
-                qs.append(Q("goal_%s_%s_%d" % (name, cls, ci), ["o3_goal.c", "repo:" + PC], defs=d,
+                b2 = dict(base)
+                b2.pop('units')
+                hooks = []
+                for c2 in classes:
+                    hooks += [x % (name, c2[0]) for x in ("%s_%s_internal_init", "hook_of_%s_%s_CPU", "complete_hook_of_%s_%s", "release_deps_of_%s_%s",
+                                                          "data_lookup_of_%s_%s", "release_task_of_%s_%s")] + ["__jdf2c_startup_" + c2[0]]
+                qs.append(Q("goal_%s_%s_%d" % (name, cls, ci), ["o3_goal.c"], defs=d, units=ptg.UNITS + [PC], patches=TRIM_PARSEC_C,
+                            remove_bodies=hooks,
                             unwind=max(20, maxdeg + 3, REFBOX.get(name, 14) + 2),
                             info={"obligation": "O3 goal / in-degree", "symbolic": ["destination instance s", "delivery order (rotation)"],
-                                  "enumerated": {"globals": [list(v) for v in ch]}, "stubs": ["none for parsec.c (linked whole); generated tables real"],
+                                  "enumerated": {"globals": [list(v) for v in ch]}, "stubs": ["parsec.c cut down to its dependency functions (patches); bodies of the generated hooks/startup/internal_init removed (not called)"],
                                   "jdf": jdf, "class": cls,
                                   "functions": ["parsec_update_deps_with_mask", "parsec_update_deps_with_counter",
                                                 "parsec_check_IN_dependencies_with_mask", "parsec_check_IN_dependencies_with_counter"]}, **b2))
     return qs
 
 def mutants(ctx):
-    return []
+    return [
+        # O1: internal_init counts instances placed on other ranks
+        Mutant("count_ignores_placement", J2C,
+               'coutput("%s  if( !%s_pred(%s) ) continue;\\n",\n                indent(nesting), f->fname, UTIL_DUMP_LIST_FIELD(sa2,',
+               'coutput("%s  if( 0 && !%s_pred(%s) ) continue;\\n",\n                indent(nesting), f->fname, UTIL_DUMP_LIST_FIELD(sa2,',
+               queries=["count_chain_C_r2.1_0", "count_pingpong_PING_r2.1_0"]),
+        # O1: descending range misses its last value
+        Mutant("count_descending_off_by_one", J2C,
+               'coutput("%s        %s >= %s%s_end;\\n",', 'coutput("%s        %s > %s%s_end;\\n",',
+               queries=["count_grid_G_r1.0_0", "count_grid_G_r1.0_1"]),
+        # O2: on re-entry after PARSEC_HOOK_RETURN_AGAIN the enumeration restarts instead of resuming
+        Mutant("startup_restart_instead_of_resume", J2C,
+               '"    restore_context = 1;\\n"\n            "    goto restore_context_0;\\n"',
+               '"    restore_context = 0;\\n"\n            "    this_task->locals.reserved[0].value = 2;\\n"',
+               queries=["startup_derived_P_0_r1.0", "startup_startup_STARTUP_2_2_1_r1.0"]),
+        # O2: startup creates tasks that belong to other ranks
+        Mutant("startup_ignores_placement", J2C,
+               'coutput("%s  if( !%s_pred(%s) ) continue;\\n",\n            indent(nesting), f->fname, UTIL_DUMP_LIST_FIELD(sa1,',
+               'coutput("%s  if( 0 && !%s_pred(%s) ) continue;\\n",\n            indent(nesting), f->fname, UTIL_DUMP_LIST_FIELD(sa1,',
+               queries=["startup_derived_P_0_r2.1", "startup_startup_STARTUP_2_2_1_r2.1"]),
+        # O2: ternary input 'cond ? memory : task' treated as 'cond ? task : memory'
+        Mutant("startup_ternary_memory_side_swapped", J2C,
+               'assert( NULL != dep->guard->callfalse->var );\n                        goto_if_true = 1;',
+               'assert( NULL != dep->guard->callfalse->var );\n                        goto_if_false = 1;',
+               queries=["startup_chain_C_3_r1.0", "startup_pingpong_PING_2_r1.0"]),
+        # O3: fan-out range 'a .. b' stops one short
+        Mutant("fanout_range_off_by_one", J2C,
+               'string_arena_add_string(sa_open, "%s_%s <= %s; %s_%s+=",', 'string_arena_add_string(sa_open, "%s_%s < %s; %s_%s+=",',
+               queries=["succ_tree_T_0", "succ_grid_G_0"]),
+        # O3: guard of an output dependency dropped is caught by soundness; here: successor key built from the source's locals
+        Mutant("successor_key_from_source_locals", J2C,
+               '"%s((const parsec_taskpool_t*)__parsec_tp, (const parsec_assignment_t*)&ncc->locals);\\n",',
+               '"%s((const parsec_taskpool_t*)__parsec_tp, (const parsec_assignment_t*)&this_task->locals);\\n",',
+               queries=["succ_chain_C_0", "succ_pingpong_PING_0"]),
+        # O3 goal: the generated class forgets that some inputs come from memory
+        Mutant("goal_flag_in_in_dependencies_dropped", J2C,
+               'has_in_in_dep ? " | PARSEC_HAS_IN_IN_DEPENDENCIES" : "",\n                                jdf_property_get_int(f->properties, "immediate", 0) ? " | PARSEC_IMMEDIATE_TASK" : "",\n                                inputmask);',
+               '"",\n                                jdf_property_get_int(f->properties, "immediate", 0) ? " | PARSEC_IMMEDIATE_TASK" : "",\n                                inputmask);',
+               queries=["goal_chain_C_0", "goal_pingpong_PING_0"]),
+        # O3 goal (runtime side): from-memory test flipped in parsec_check_IN_dependencies_with_mask
+        Mutant("check_IN_mask_from_memory_flipped", PC,
+               'if( PARSEC_LOCAL_DATA_TASK_CLASS_ID == dep->task_class_id ) {\n                        active = (1 << flow->flow_index);',
+               'if( PARSEC_LOCAL_DATA_TASK_CLASS_ID != dep->task_class_id ) {\n                        active = (1 << flow->flow_index);',
+               queries=["goal_chain_C_0", "goal_grid_H_0"]),
+        # O3 goal (runtime side): control gather counted once
+        Mutant("check_IN_counter_gather_counted_once", PC,
+               'active += dep->ctl_gather_nb->inline_func32(tp, task->locals);', 'active += 1;',
+               queries=["goal_tree_S_0"], count=0),
+    ]
 
 CLAIMED = False
